@@ -307,8 +307,10 @@ Qed.
 
 (* ---- the guard of the JSON round trip ---- *)
 Definition json_ok (m : msg) : bool :=
-  int32_ok (m_seq m) && int32_ok (st_code (m_status m)) && forallb json_safe (m_method m)
-  && args_ok (m_meta m).
+  int32_ok (m_seq m) && int32_ok (st_code (m_status m)) && args_ok (m_meta m).
+
+(* the guard before the repair of the service method member *)
+Definition json_ok_prefix (m : msg) : bool := json_ok m && forallb json_safe (m_method m).
 
 Definition jraw_of (m : msg) (body : bytes) (xs : list Z) : jraw :=
   mkJraw (m_seq m) (byte_z (m_mtype m)) (m_method m) (status_encode (m_status m))
@@ -318,20 +320,21 @@ Section Frame.
   Variable quote_hi : bytes -> bytes.
   Variable e : byte -> bytes.
 
-  Lemma parse_members_ok m body tail :
+  Lemma parse_members_with mq m body tail :
     json_ok m = true -> (forall c, In c body -> chunk_ok c (e c)) ->
-    parse_members (json_members quote_hi e m body ++ tail) = Some (jraw_of m body [], tail).
+    (forall rest, jstring (mq (m_method m) ++ rest) = Some (m_method m, rest)) ->
+    parse_members (json_members_with quote_hi mq e m body ++ tail) = Some (jraw_of m body [], tail).
   Proof.
-    unfold json_ok. intros H He.
-    apply andb_true_iff in H as [H Hmeta]. apply andb_true_iff in H as [H Hmeth].
+    unfold json_ok. intros H He Hmeth.
+    apply andb_true_iff in H as [H Hmeta].
     apply andb_true_iff in H as [Hseq Hcode].
-    unfold json_members. repeat rewrite <- app_assoc. unfold parse_members.
+    unfold json_members_with. repeat rewrite <- app_assoc. unfold parse_members.
     rewrite strip_app. cbn [obind].
     rewrite jnum_format_lit by (auto; reflexivity). cbn [obind].
     rewrite strip_app. cbn [obind].
     rewrite jnum_format_lit by (auto using byte_z_ok; reflexivity). cbn [obind].
     rewrite strip_app. cbn [obind].
-    rewrite jstring_quote by exact Hmeth. cbn [obind].
+    rewrite Hmeth. cbn [obind].
     rewrite strip_app. cbn [obind].
     rewrite jstring_quote by apply status_encode_safe. cbn [obind].
     rewrite strip_app. cbn [obind].
@@ -342,6 +345,30 @@ Section Frame.
     change ((dqt :: flat_map e body ++ [dqt]) ++ tail) with (dqt :: (flat_map e body ++ [dqt]) ++ tail).
     rewrite <- app_assoc. cbn [app].
     rewrite jstring_esc by exact He. cbn [obind]. reflexivity.
+  Qed.
+
+  (* the repaired code: every service method, as long as the escape function is sound on its
+     bytes *)
+  Lemma parse_members_ok m body tail :
+    json_ok m = true -> (forall c, In c body -> chunk_ok c (e c)) ->
+    (forall c, In c (m_method m) -> chunk_ok c (e c)) ->
+    parse_members (json_members quote_hi e m body ++ tail) = Some (jraw_of m body [], tail).
+  Proof.
+    intros H He Hm. unfold json_members. apply parse_members_with; [exact H | exact He |].
+    intros rest. unfold esc_str.
+    change ((dqt :: flat_map e (m_method m) ++ [dqt]) ++ rest)
+      with (dqt :: (flat_map e (m_method m) ++ [dqt]) ++ rest).
+    rewrite <- app_assoc. cbn [app]. apply jstring_esc. exact Hm.
+  Qed.
+
+  (* before the repair: under the guard on the service method *)
+  Lemma parse_members_prefix_ok m body tail :
+    json_ok_prefix m = true -> (forall c, In c body -> chunk_ok c (e c)) ->
+    parse_members (json_members_prefix quote_hi e m body ++ tail) = Some (jraw_of m body [], tail).
+  Proof.
+    unfold json_ok_prefix. intros H He. apply andb_true_iff in H as [H Hmeth].
+    unfold json_members_prefix. apply parse_members_with; [exact H | exact He |].
+    intros rest. apply jstring_quote. exact Hmeth.
   Qed.
 
   Lemma parse_json_ok m :
@@ -359,7 +386,7 @@ Lemma msg_of_jraw_ok m body xs :
   = Ok (mkMsg (m_seq m) (m_mtype m) (m_method m) (m_status m) (m_meta m) (m_codec m) body).
 Proof.
   unfold json_ok. intros H.
-  apply andb_true_iff in H as [H Hmeta]. apply andb_true_iff in H as [H Hmeth].
+  apply andb_true_iff in H as [H Hmeta].
   apply andb_true_iff in H as [Hseq Hcode].
   unfold msg_of_jraw, jraw_of. cbn [jr_seq jr_mtype jr_method jr_status jr_meta jr_codec].
   rewrite status_roundtrip by exact Hcode. cbn [rbind].
@@ -540,17 +567,29 @@ Proof.
   vm_compute. intros H. discriminate H.
 Qed.
 
-(* outside the guard: a service method with a control character strconv.Quote writes as \x01 *)
-Theorem json_method_unguarded_refuted quote_hi gjson_other :
-  exists m f size, json_pack quote_hi jesc_byte 1000 [] m = Ok (f, size) /\
+(* before the repair of the service method member (strconv.Quote): a service method with a
+   control character, written as \x00, is cut short by the reader *)
+Theorem json_method_prefix_refuted quote_hi gjson_other :
+  exists m f size, json_ok m = true /\ json_pack_prefix quote_hi jesc_byte 1000 [] m = Ok (f, size) /\
                    json_unpack gjson_other [] 1000 f <> Ok (m, [], size, []).
 Proof.
-  exists (mkMsg 1 x01 [ "/"%byte; "a"%byte; x01; "b"%byte ] status_zero [] x6a []).
-  eexists. eexists. split; [vm_compute; reflexivity|].
+  exists (mkMsg 1 x01 (str "/test" ++ [x00]) status_zero [] x6a []).
+  eexists. eexists. split; [reflexivity|]. split; [vm_compute; reflexivity|].
   vm_compute. intros H. discriminate H.
 Qed.
 
-(* ---- websocket JSON sub-protocol ---- *)
+(* ... and under its guard that code round-trips too (the statement that held before) *)
+Theorem json_parse_prefix_ok quote_hi gjson_other m :
+  json_ok_prefix m = true ->
+  json_parse gjson_other (json_members_prefix quote_hi jesc_byte m (m_body m) ++ [ "}"%byte ]) = Ok m.
+Proof.
+  intros Hok. unfold json_parse, gjson_json, parse_json.
+  rewrite parse_members_prefix_ok by (auto using jesc_byte_ok). cbn [jr_body jraw_of].
+  unfold json_ok_prefix in Hok. apply andb_true_iff in Hok as [Hok _].
+  change (beqb "}"%byte "}"%byte) with true. cbn iota.
+  rewrite msg_of_jraw_ok by exact Hok. rewrite msg_eta. reflexivity.
+Qed.
+
 Definition no_sep (c : byte) : bool := negb (beqb c "]"%byte) && negb (beqb c ","%byte).
 
 Lemma format_int_nosep z : forallb no_sep (format_int 10 z) = true.
@@ -680,6 +719,16 @@ Theorem wsj_body_v0_refuted quote_hi gjson_other :
                    wsj_unpack gjson_other [] 1000 b <> Ok (m, [], size).
 Proof.
   exists (mkMsg 1 x01 (str "/a/b") status_zero [] x6a [ "a"%byte; bsl; "b"%byte ]).
+  eexists. eexists. split; [reflexivity|]. split; [vm_compute; reflexivity|].
+  vm_compute. intros H. discriminate H.
+Qed.
+
+(* jsonSubProto before the repair of the service method member (%q) *)
+Theorem wsj_method_prefix_refuted quote_hi gjson_other :
+  exists m b size, json_ok m = true /\ wsj_pack_prefix quote_hi jesc_byte 1000 [] m = Ok (b, size) /\
+                   wsj_unpack gjson_other [] 1000 b <> Ok (m, [], size).
+Proof.
+  exists (mkMsg 1 x01 (str "/test" ++ [x00]) status_zero [] x6a []).
   eexists. eexists. split; [reflexivity|]. split; [vm_compute; reflexivity|].
   vm_compute. intros H. discriminate H.
 Qed.
